@@ -4,7 +4,8 @@
 //  * integer types per Abi (wasm32: long = int32, pointer = uint32; lp16: int = int16,
 //    pointer = uint16), so every integer/pointer conversion is observable;
 //  * data pointers are OFFSETS from the region base (null <-> 0); the region is a
-//    2^RegionBits-aligned mmap with PROT_NONE guard pages on both sides;
+//    2^RegionBits-aligned mmap with PROT_NONE guard pages on both sides (regions smaller than a
+//    page lie in the middle of a host page, without guards);
 //  * function pointers are per-instance TABLE INDICES; the application-side
 //    representation of a sandbox function pointer is the address of the table entry;
 //  * invoke support: guest functions are host functions written with guest-ABI types,
@@ -280,7 +281,16 @@ protected:
     }
     uintptr_t a = reinterpret_cast<uintptr_t>(map_addr) + page;
     base = (a + RegionMask) & ~RegionMask;
-    if (mprotect(reinterpret_cast<void*>(base), RegionSize, PROT_READ | PROT_WRITE) != 0) {
+    uintptr_t open_from = base;
+    size_t open_len = RegionSize;
+    if constexpr (RegionBits < 11) {
+      // a region smaller than a page lies in the MIDDLE of a host page (aligned to its own size
+      // only): the bytes before and after it on that page are not sandbox memory
+      open_from = (a + page - 1) & ~(uintptr_t)(page - 1);
+      open_len = page;
+      base = open_from + 2 * RegionSize;
+    }
+    if (mprotect(reinterpret_cast<void*>(open_from), open_len, PROT_READ | PROT_WRITE) != 0) {
       munmap(map_addr, map_len);
       map_addr = nullptr;
       return false;
